@@ -17,7 +17,7 @@ using namespace vc;
 // ----------------------------------------------------------------------------------------------------
 // recording interposers
 // ----------------------------------------------------------------------------------------------------
-struct Ev { int op; std::string a, b; };  // op: 0 open(trunc) a; 1 write a data=b; 2 close a; 3 rename a->b; 4 remove a
+struct Ev { int op; std::string a, b; bool completes = false; };  // op: 0 open(trunc) a; 1 write a data=b; 2 close a; 3 rename a->b; 4 remove a
 static std::vector<Ev> g_log;
 static bool g_rec = false;
 static std::map<int, std::string> g_fd;  // fd -> path (only files opened for writing while recording)
@@ -131,9 +131,29 @@ static void apply_ev(FS &fs, Ev const &e, long nbytes = -1)
 
 static std::string base_of(std::string const &p) { size_t k = p.rfind('/'); return k == std::string::npos ? p : p.substr(k + 1); }
 // an event after which the state file holds a completely written state: it was closed, or a completed file was renamed to it
-static bool completes_state(Ev const &e)
+static bool completes_state(Ev const &e) { return e.completes; }
+
+// The interposers log writes and closes under the path the file was OPENED with.  A file renamed while it is still open
+// keeps receiving the writes under its new name (same inode): rewrite the log so that every event names the file's
+// current path, and mark the events after which the state file holds a completely written state (it was closed under
+// that name, or a file that had been closed was renamed onto it).
+static void normalise_log(std::vector<Ev> &log)
 {
-  return (e.op == 2 && base_of(e.a) == "cc_out.colvars.state") || (e.op == 3 && base_of(e.b) == "cc_out.colvars.state");
+  std::map<std::string, std::string> now;  // opening path -> current path, for files still open
+  for (auto &e : log) {
+    e.completes = false;
+    if (e.op == 0) now[e.a] = e.a;
+    else if (e.op == 1) { auto it = now.find(e.a); if (it != now.end()) e.a = it->second; }
+    else if (e.op == 2) {
+      auto it = now.find(e.a);
+      if (it != now.end()) { e.a = it->second; now.erase(it); }
+      e.completes = (base_of(e.a) == "cc_out.colvars.state");
+    } else if (e.op == 3) {
+      bool still_open = false;
+      for (auto &kv : now) if (kv.second == e.a) { kv.second = e.b; still_open = true; }
+      e.completes = !still_open && base_of(e.b) == "cc_out.colvars.state";
+    }
+  }
 }
 
 // load a candidate file in a fresh module; returns "" on failure, else the canonical text of the loaded state
@@ -183,6 +203,7 @@ static Recorded record_run(std::string const &dir, bool binary, long first_step,
   g_rec = false;
   Recorded r;
   r.log = g_log;
+  normalise_log(r.log);
   FS fs;
   if (initial_fs) for (auto &kv : *initial_fs) fs[dir + "/" + base_of(kv.first)] = kv.second;
   for (auto &e : r.log) {
